@@ -44,6 +44,8 @@ def run(ctx):
     tr.d2_descent(ctx, DRV)
     tr.d3_reported(ctx, DRV)
     tr.d4_nan(ctx, DRV)
+    from .common import settings_wiring
+    settings_wiring(ctx, "D1/T5-settings-wiring", ES)
     ctx.trust("IEEE-754: every ordered comparison with a NaN operand is false")
     ctx.trust("rho = N/M >= c >= 0 with M >= 0 implies N >= 0 (M = 0 gives +-inf or NaN; -inf and NaN fail rho >= c)")
     ctx.assume("default mode (settings.use_incremental_objective is False) for the descent clause, as in the property text")
@@ -107,6 +109,7 @@ def variants(repo):
     O = "optimism/Objective.py"
     T = "trust_region_minimize"
     return [
+        Variant("settings eta2/eta3 swapped", E, sub("    return Settings(t1, t2, eta1, eta2, eta3,", "    return Settings(t1, t2, eta1, eta3, eta2,"), "D1/T5-settings-wiring"),
         Variant("True at the small-radius exit", E,
                 sub_in_func(T, "                    if callback: callback(x, objective)\n                    return x, False",
                             "                    if callback: callback(x, objective)\n                    return x, True"),
